@@ -27,6 +27,10 @@ type probeNode struct {
 func (n *probeNode) Kind() ast.NodeKind         { return n.kind }
 func (n *probeNode) Dump(src []byte, level int) {}
 
+// trigger bytes of the probes (parameters "trig" / "itrig"; default '@' and '%'). Bytes >= 0x80 and DEL are
+// legitimate triggers: the dispatch tables are indexed by the raw byte.
+var c20Trig, c20ITrig byte = '@', '%'
+
 type probeBlock struct {
 	id     int
 	trig   []byte
@@ -37,7 +41,7 @@ func (p *probeBlock) Trigger() []byte { return p.trig }
 func (p *probeBlock) Open(parent ast.Node, reader text.Reader, pc parser.Context) (ast.Node, parser.State) {
 	c20Block = append(c20Block, p.id)
 	line, seg := reader.PeekLine()
-	if !p.accept || len(line) == 0 || line[0] != '@' {
+	if !p.accept || len(line) == 0 || line[0] != c20Trig {
 		return nil, parser.NoChildren
 	}
 	n := seg.Len()
@@ -59,7 +63,7 @@ type probeInline struct {
 	accept bool
 }
 
-func (p *probeInline) Trigger() []byte { return []byte{'%'} }
+func (p *probeInline) Trigger() []byte { return []byte{c20ITrig} }
 func (p *probeInline) Parse(parent ast.Node, block text.Reader, pc parser.Context) ast.Node {
 	c20Inline = append(c20Inline, p.id)
 	if !p.accept {
@@ -202,13 +206,15 @@ func eqInts(a, b []int) bool {
 func H_c20_block() {
 	nt, nf := vp.ParamInt("nt", 2), vp.ParamInt("nf", 1)
 	n := nt + nf
+	c20Trig = byte(vp.ParamInt("trig", '@'))
+	T := c20Trig
 	pr := prios("p", n)
 	acc := vp.Concrete(vp.IntRange("acc", -1, n-1)) // which probe accepts (-1: none)
 	var popts []parser.Option
 	for i := 0; i < n; i++ {
 		var trig []byte
 		if i < nt {
-			trig = []byte{'@'}
+			trig = []byte{T}
 		}
 		popts = append(popts, parser.WithBlockParsers(util.Prioritized(&probeBlock{id: i, trig: trig, accept: i == acc}, pr[i])))
 	}
@@ -217,7 +223,7 @@ func H_c20_block() {
 	// doc 0: the probes' line opens the document; doc 1: it follows a paragraph line (only parsers that can
 	// interrupt a paragraph are tried — the probes can, the built-in paragraph parser cannot); doc 2: the same
 	// inside a block quote
-	docs := []string{"@x\n", "a\n@x\n", "> a\n> @x\n"}
+	docs := []string{string([]byte{T}) + "x\n", "a\n" + string([]byte{T}) + "x\n", "> a\n> " + string([]byte{T}) + "x\n"}
 	dv := vp.ParamInt("doc", 0)
 	var o bytes.Buffer
 	e := m.Convert([]byte(docs[dv]), &o)
@@ -233,9 +239,9 @@ func H_c20_block() {
 	}
 	trigSorted, freeSorted := sortedBy(trigIDs, pr), sortedBy(freeIDs, pr)
 	var want []int
-	lines := []byte{'@'}
+	lines := []byte{T}
 	if dv > 0 {
-		lines = []byte{'a', '@'}
+		lines = []byte{'a', T}
 	}
 	paraOpen := false
 	accepted := false
@@ -243,7 +249,7 @@ func H_c20_block() {
 		opened := false
 		// parsers on the line's first byte, then the trigger-less ones; a byte nobody triggers on sees only the latter
 		var list []int
-		if first == '@' && nt > 0 {
+		if first == T && nt > 0 {
 			list = append(list, trigSorted...)
 		}
 		// the built-in paragraph parser sits at 1000 among the trigger-less parsers
@@ -269,14 +275,14 @@ func H_c20_block() {
 				continue
 			}
 			want = append(want, id)
-			if id == acc && first == '@' {
+			if id == acc && first == T {
 				opened, paraOpen, accepted = true, false, true
 			}
 		}
 	}
 	vp.Assert(eqInts(c20Block, want), "block parsers were not tried in ascending priority (triggered first, then trigger-less) up to the first acceptor")
 	if accepted {
-		vp.Assert(!bytes.Contains(o.Bytes(), []byte("@x")), "the accepting probe's line was rendered as text")
+		vp.Assert(!bytes.Contains(o.Bytes(), []byte{T, 'x'}), "the accepting probe's line was rendered as text")
 	}
 	vp.Reach("done")
 }
@@ -284,6 +290,7 @@ func H_c20_block() {
 // H_c20_inline: inline parsers on one trigger are tried in ascending priority, first acceptor wins.
 func H_c20_inline() {
 	n := vp.ParamInt("n", 3)
+	c20ITrig = byte(vp.ParamInt("itrig", '%'))
 	pr := prios("p", n)
 	acc := vp.Concrete(vp.IntRange("acc", -1, n-1))
 	var popts []parser.Option
@@ -293,7 +300,7 @@ func H_c20_inline() {
 	m := build(popts, nil, perm(n, vp.ParamInt("order", 0)), vp.ParamInt("route", 0))
 	c20Inline = nil
 	var o bytes.Buffer
-	e := m.Convert([]byte("a%b\n"), &o)
+	e := m.Convert([]byte{'a', c20ITrig, 'b', '\n'}, &o)
 	vp.Assert(e == nil, "conversion returned an error")
 	ids := make([]int, n)
 	for i := range ids {
